@@ -21,10 +21,11 @@ import (
 // store of the contract over the real in-memory db; the momentum store is a model.
 type c09Momentum struct {
 	store.Momentum
-	send   *nom.AccountBlock
-	height uint64
-	ts     uint64
-	sporks [3]bool // accelerator, htlc, bridge&liquidity
+	send      *nom.AccountBlock
+	height    uint64
+	ts        uint64
+	sporks    [3]bool       // accelerator, htlc, bridge&liquidity
+	confirmed store.Account // confirmed state of the account under test (sender-side obligations)
 }
 
 func (m *c09Momentum) ChainIdentifier() uint64 { return 1 }
@@ -94,6 +95,10 @@ func c09NewEnv(contract types.Address) *c09Env {
 }
 
 func (e *c09Env) storage() db.DB { return e.as.Storage() }
+
+func c09Ctx(e *c09Env) vm_context.AccountVmContext {
+	return vm_context.NewAccountContext(e.mom, e.as, &c09Pillars{})
+}
 
 // c09Send: an arbitrary send block to the contract with the given call data
 func (e *c09Env) c09Send(data []byte, token types.ZenonTokenStandard) *nom.AccountBlock {
